@@ -63,13 +63,15 @@ class Gen:
             else:
                 rr = r.choice(["2", "3", "0.5", "4"])
         w = r.choice(["", " "])
+        if r.random() < 0.12:            # a sign directly after the operator, without parentheses: a + -b, a * -2
+            rr = r.choice("-+") + r.choice(["", " "]) + rr
         return l + w + op + w + rr
 
     def constraint(self, depth):
         r = self.rng
         s = (r.choice(["-", "+", ""]) if r.random() < 0.2 else "") + self.expr(r.randint(0, depth))
         if r.random() < 0.5:
-            s += r.choice([" = ", "="]) + self.expr(r.randint(0, depth - 1))
+            s += r.choice([" = ", "="]) + (r.choice(["-", "- ", "+"]) if r.random() < 0.25 else "") + self.expr(r.randint(0, depth - 1))
         return s
 
 
@@ -193,7 +195,12 @@ def run(ctx: Ctx):
                     ctx.fail(f"mapping form of {cons} with values {vals} differs from the string form plus the values", rp)
         elif kind == "ok" and mutated:
             pass
-        elif not mutated and kind not in ("syntax", "ZeroDivisionError", "RuntimeError", "KeyError", "SyntaxError"):
+        elif not mutated and kind == "syntax":
+            # every generated specification is well formed: a rejection is a violation. Recorded finding: a sign directly after * or /
+            # (the sign's precedence is below the product's, so the product is applied before its right operand exists)
+            tags = ["C16-sign-after-mul-div"] if _re.search(r"[*/]\s*[+-]", s) else []
+            ctx.fail(f"the well-formed constraint {s!r} is rejected: {str(res).splitlines()[0] if str(res) else res!r}", rp, tags)
+        elif not mutated and kind not in ("ZeroDivisionError", "RuntimeError", "KeyError", "SyntaxError"):
             ctx.fail(f"{kind} escaped while compiling the constraint {s!r}", rp)
         if i < 3:
             ctx.sample({"spec": s, "implementation": kind})
